@@ -112,6 +112,7 @@ MSG_SUBST = [
     (r'if \(feasrelax\(\)\)', 'if (feasrelax().mode_)', 1),
     (r'MPD\(\s*IsMIP\(\)\s*\)', 'IsMIP()', 1),
     (r'RoundSolution\(sol\.primal, writer\)', 'RoundSolution()', 1),
+    (r'sol\.(primal|dual)\.size\(\)', r'g_n\1', -1),      # the other parts of the solution, should the block consult them
 ]
 
 
@@ -120,6 +121,7 @@ def message_harness():
     'if (exportKappa() && 1)', with the writer / formatting / rounding calls as stubs."""
     parts = [PRELUDE, ENUM, '''
 size_t g_nobj; double *g_objvals; double obj_value;
+size_t g_nprimal, g_ndual;    /* sizes of the primal / dual vectors of the solution (arbitrary: a solution may come without them) */
 int g_wrote_objective;       /* ghost: set by the writer stub when the format mentions "objective " */
 int g_mip, g_round;
 struct FeasRelax { int mode_; bool orig_obj_available_; double orig_obj_value_; } g_fr;
@@ -143,7 +145,7 @@ __CPROVER_requires(g_sc != -200)
 __CPROVER_ensures(__CPROVER_return_value == (IN(0, 99) || IN(300, 349) || IN(400, 449)))
 __CPROVER_assigns();
 ''',
-             Fn(BACKEND, r'if \(IsProblemSolvedOrFeasible\(\)\) \{\s*if \(sol\.objvals\.size\(\)\) \{',
+             Fn(BACKEND, r'if \((?:[^(){}]|\([^()]*\))*\) \{\s*if \(sol\.objvals\.size\(\)\) \{',      # the condition is kept as written
                 'void vp_report_objective(void)',
                 block_end=r'RoundSolution\(sol\.primal, writer\);\s*\}',
                 contract='__CPROVER_requires(g_sc != -200 && g_nobj <= 1000000 && __CPROVER_is_fresh(g_objvals, (g_nobj ? g_nobj : 1) * sizeof(double)))'
@@ -159,7 +161,7 @@ void harness(void) {
   vp_one = 1;
   int sc = nondet_int(); __CPROVER_assume(sc != -200);
   g_sc = sc; vp_in_sc = sc;
-  g_nobj = nondet_size_t(); vp_in_nobj = g_nobj;
+  g_nobj = nondet_size_t(); vp_in_nobj = g_nobj; g_nprimal = nondet_size_t(); g_ndual = nondet_size_t();
   g_mip = nondet_int(); g_round = nondet_int();
   g_fr.mode_ = nondet_int(); g_fr.orig_obj_available_ = nondet_bool(); g_fr.orig_obj_value_ = 0;
   g_wrote_objective = 0; obj_value = 0;
@@ -333,9 +335,23 @@ def replay_passthrough(lead, inputs, obs):
     return p.returncode != 0, (p.stdout + p.stderr)[-2000:], _pdrv[0]
 
 
+_mdrv = [None]
+
+
+def replay_message(lead, inputs, obs):
+    import subprocess
+    from vp import native
+    if _mdrv[0] is None:
+        _mdrv[0] = native.build_driver('c10_message_replay.cc', 'c10_message_replay', native.MP_SOURCES, ['-O0'])[0]
+    p = subprocess.run([_mdrv[0]], capture_output=True, text=True, timeout=600)
+    return p.returncode == 1, (p.stdout + p.stderr)[-2000:], _mdrv[0]
+
+
 def harnesses(tier, seed):
     hs = _harnesses(tier, seed)
     for h in hs:
+        if h.name == 'C10.message.objective':
+            h.replay = replay_message
         if 'passthrough' in h.name and h.replay is None:
             h.replay = replay_passthrough
     return hs
